@@ -13,7 +13,7 @@ use crate::exec::{pristine_disk, Corpus};
 use crate::fields;
 use crate::rng::{run_seed, Rng};
 use crate::surgery;
-use crate::trace::{tag_to_string, Fault, Feat, Mode, Op, Positions, Surgery, Trace};
+use crate::trace::{tag_to_string, Fault, Feat, FvRecord, Mode, Op, Positions, Surgery, Trace};
 use crate::util::guard;
 
 #[derive(Clone, Copy, PartialEq, Eq, Debug)]
@@ -24,6 +24,7 @@ pub enum Container {
     Woff2,
 }
 
+#[derive(Clone)]
 pub struct FontInfo {
     pub path: String,
     pub file: Rc<Vec<u8>>,
@@ -33,6 +34,9 @@ pub struct FontInfo {
     pub disk: Disk,
     pub num_glyphs: u16,
     pub chars: Vec<u32>,
+    /// (char, glyph id) of the selected cmap subtable, sorted by char.
+    pub char_gids: Vec<(u32, u16)>,
+    pub gpos_features: Vec<(u32, Vec<u16>)>,
     pub scripts: Vec<String>,
     pub langs: Vec<String>,
     pub axes: usize,
@@ -226,14 +230,15 @@ impl Generator {
             .unwrap_or(0);
         // cmap coverage through the library on the pristine font (generator-side only).
         let mut chars: Vec<u32> = Vec::new();
+        let mut char_gids: Vec<(u32, u16)> = Vec::new();
         if let Some(cmap_data) = get("cmap") {
             let r = guard(|| {
                 let mut v = Vec::new();
                 if let Ok(cmap) = ReadScope::new(&cmap_data).read::<Cmap<'_>>() {
                     if let Ok(Some((_, sub))) = read_cmap_subtable(&cmap) {
-                        let _ = sub.mappings_fn(|c, _g| {
+                        let _ = sub.mappings_fn(|c, g| {
                             if v.len() < 20000 {
-                                v.push(c)
+                                v.push((c, g))
                             }
                         });
                     }
@@ -241,11 +246,14 @@ impl Generator {
                 v
             });
             if let Ok(v) = r {
-                chars = v;
+                chars = v.iter().map(|x| x.0).collect();
+                char_gids = v;
             }
         }
         chars.sort_unstable();
         chars.dedup();
+        char_gids.sort_unstable();
+        char_gids.dedup_by_key(|x| x.0);
         let mut scripts = Vec::new();
         let mut langs = Vec::new();
         for t in ["GSUB", "GPOS"] {
@@ -281,6 +289,9 @@ impl Generator {
         let gsub_features = get("GSUB")
             .map(|t| surgery::feature_list(&t))
             .unwrap_or_default();
+        let gpos_features = get("GPOS")
+            .map(|t| surgery::feature_list(&t))
+            .unwrap_or_default();
         let dir = if container == Container::Sfnt {
             disk::sfnt_directory(&data, 0).map(|x| x.1).unwrap_or_default()
         } else {
@@ -309,6 +320,8 @@ impl Generator {
             disk: d,
             num_glyphs,
             chars,
+            char_gids,
+            gpos_features,
             scripts,
             langs,
             axes,
@@ -368,11 +381,31 @@ impl Generator {
             faults: Vec::new(),
             ops: Vec::new(),
         };
+        // Installed structures the corpus lacks (morx, CBLC/CBDT, EBLC/EBDT, vhea/vmtx): the run
+        // then sees a font that has them, so faults and ops can target them.
+        let installed = if info.broken || info.container != Container::Sfnt {
+            None
+        } else {
+            gen_install(&mut rng, &info, prop)
+        };
+        let info: Rc<FontInfo> = match installed {
+            Some((modified, surgeries)) => {
+                trace.surgery.extend(surgeries);
+                Rc::new(modified)
+            }
+            None => info,
+        };
         match prop {
             "C02" => self.gen_c02(&mut rng, &info, &mut trace),
             "C03" => self.gen_c03(&mut rng, &info, &mut trace),
             "C09" => self.gen_c09(&mut rng, &info, &mut trace),
             _ => self.gen_c01(&mut rng, &info, &mut trace),
+        }
+        if trace.surgery.iter().any(|s| !matches!(s, Surgery::FeatureVariations { .. } | Surgery::FeatureVariationsMulti { .. })) {
+            // installed tables exist only in the disk model
+            trace.mode = Mode::Provider;
+            trace.rewrap_woff2 = false;
+            trace.faults.retain(|f| f.targets().iter().all(|t| t != "file" && t != "inner"));
         }
         if info.broken && trace.mode == Mode::Provider {
             trace.mode = Mode::Image;
@@ -450,8 +483,15 @@ impl Generator {
             }
             if !allowed.is_empty() {
                 let n = [1usize, 1, 1, 2, 2, 3][rng.usize_below(6)];
+                let installed_morx = t.surgery.iter().any(|s| matches!(s, Surgery::InstallMorx { .. }));
                 let targets: Vec<String> = (0..2)
-                    .map(|_| rng.pick(&allowed).to_string())
+                    .map(|_| {
+                        if installed_morx && rng.pct(75) {
+                            "morx".to_string()
+                        } else {
+                            rng.pick(&allowed).to_string()
+                        }
+                    })
                     .collect();
                 for _ in 0..n {
                     if let Some(f) = gen_table_fault(rng, info, &targets) {
@@ -462,6 +502,10 @@ impl Generator {
         }
         if rng.pct(10) && !info.gsub_features.is_empty() {
             if let Some(s) = gen_surgery(rng, info) {
+                t.surgery.push(s);
+            }
+        } else if rng.pct(4) && !info.gpos_features.is_empty() {
+            if let Some(s) = gen_surgery_gpos(rng, info) {
                 t.surgery.push(s);
             }
         }
@@ -477,6 +521,10 @@ impl Generator {
     fn gen_c03(&self, rng: &mut Rng, info: &FontInfo, t: &mut Trace) {
         if rng.pct(25) && !info.gsub_features.is_empty() && info.container == Container::Sfnt {
             if let Some(s) = gen_surgery(rng, info) {
+                t.surgery.push(s);
+            }
+        } else if rng.pct(6) && !info.gpos_features.is_empty() && info.container == Container::Sfnt {
+            if let Some(s) = gen_surgery_gpos(rng, info) {
                 t.surgery.push(s);
             }
         }
@@ -940,6 +988,29 @@ fn gen_surgery(rng: &mut Rng, info: &FontInfo) -> Option<Surgery> {
         other.1.clone()
     };
     let (min, max) = *rng.pick(&[(0x2000i16, 0x4000i16), (-0x4000, -0x2000), (0x0001, 0x4000), (-0x4000, 0x4000)]);
+    if rng.pct(40) {
+        // several records with disjoint conditions: different tuples select different
+        // substitution tables (a cache keyed on "some substitution is active" is not enough)
+        let fi2 = *rng.pick(&with_lookups);
+        let other = rng.pick(&info.gsub_features).1.clone();
+        return Some(Surgery::FeatureVariationsMulti {
+            table: "GSUB".to_string(),
+            records: vec![
+                FvRecord {
+                    feature_index: fi as u16,
+                    lookups,
+                    min: 0x2000,
+                    max: 0x4000,
+                },
+                FvRecord {
+                    feature_index: fi2 as u16,
+                    lookups: if rng.pct(50) { Vec::new() } else { other },
+                    min: -0x4000,
+                    max: -0x2000,
+                },
+            ],
+        });
+    }
     Some(Surgery::FeatureVariations {
         table: "GSUB".to_string(),
         feature_index: fi as u16,
@@ -947,6 +1018,110 @@ fn gen_surgery(rng: &mut Rng, info: &FontInfo) -> Option<Surgery> {
         min,
         max,
     })
+}
+
+fn gen_surgery_gpos(rng: &mut Rng, info: &FontInfo) -> Option<Surgery> {
+    let with_lookups: Vec<usize> = info
+        .gpos_features
+        .iter()
+        .enumerate()
+        .filter(|(_, f)| !f.1.is_empty())
+        .map(|(i, _)| i)
+        .collect();
+    if with_lookups.is_empty() {
+        return None;
+    }
+    let fi = *rng.pick(&with_lookups);
+    let lookups = if rng.pct(60) {
+        Vec::new()
+    } else {
+        rng.pick(&info.gpos_features).1.clone()
+    };
+    let (min, max) = *rng.pick(&[(0x2000i16, 0x4000i16), (-0x4000, -0x2000), (0x0001, 0x4000)]);
+    Some(Surgery::FeatureVariations {
+        table: "GPOS".to_string(),
+        feature_index: fi as u16,
+        lookups,
+        min,
+        max,
+    })
+}
+
+/// Decide whether this run installs synthesised tables; returns the font description as the
+/// run sees it (tables installed, text generation focused on the glyphs morx is keyed on).
+fn gen_install(rng: &mut Rng, info: &FontInfo, prop: &str) -> Option<(FontInfo, Vec<Surgery>)> {
+    // percentages: morx, bitmaps, vertical
+    let (p_morx, p_bitmap, p_vert) = match prop {
+        "C02" => (14, 0, 10),
+        "C03" => (8, 8, 8),
+        "C09" => (0, 0, 6),
+        _ => (7, 8, 6),
+    };
+    let mut surgeries = Vec::new();
+    let mut focus: Option<Vec<u32>> = None;
+    if rng.pct(p_morx) && info.char_gids.len() >= 4 && info.num_glyphs >= 3 {
+        // a run of neighbouring mapped characters with distinct non-zero glyph ids
+        let want = 3 + rng.usize_below(22);
+        let start = rng.usize_below(info.char_gids.len());
+        let mut glyphs: Vec<u16> = Vec::new();
+        let mut chars: Vec<u32> = Vec::new();
+        for (c, g) in info.char_gids.iter().cycle().skip(start).take(info.char_gids.len().min(4 * want)) {
+            if *g != 0 && *g < info.num_glyphs && !glyphs.contains(g) && char::from_u32(*c).is_some() {
+                glyphs.push(*g);
+                chars.push(*c);
+                if glyphs.len() >= want {
+                    break;
+                }
+            }
+        }
+        if glyphs.len() >= 2 {
+            if rng.pct(30) {
+                // order other than first appearance
+                glyphs.reverse();
+            }
+            surgeries.push(Surgery::InstallMorx {
+                glyphs,
+                variant: rng.below(1 << 20),
+            });
+            chars.sort_unstable();
+            focus = Some(chars);
+        }
+    }
+    if rng.pct(p_bitmap) && info.num_glyphs >= 1 && info.has("glyf") {
+        let colour = rng.pct(50);
+        let present = if colour { info.has("CBLC") } else { info.has("EBLC") };
+        if !present {
+            surgeries.push(Surgery::InstallBitmaps {
+                colour,
+                variant: rng.below(1 << 20),
+                extended: rng.pct(30),
+            });
+        }
+    }
+    if rng.pct(p_vert) && !info.has("vhea") && info.has("hhea") && info.num_glyphs >= 1 {
+        let n = info.num_glyphs;
+        surgeries.push(Surgery::InstallVertical {
+            num_v_metrics: match rng.below(4) {
+                0 => 1,
+                1 => n,
+                _ => 1 + rng.below(u64::from(n)) as u16,
+            },
+        });
+    }
+    if surgeries.is_empty() {
+        return None;
+    }
+    let mut modified = info.clone();
+    for s in &surgeries {
+        if surgery::apply(&mut modified.disk, s).is_err() {
+            return None;
+        }
+    }
+    if let Some(f) = focus {
+        modified.chars = f;
+        modified.gsub_features.clear();
+    }
+    Some((modified, surgeries))
 }
 
 fn gen_gid(rng: &mut Rng, info: &FontInfo) -> u16 {
